@@ -1106,3 +1106,143 @@ async def fuzz_sftp_client(rng, full):
         if outcome:
             findings.append(('sftp client %s' % (a if kind == 'call' else 'start'), ('reply ' + b) if kind == 'call' else ('FXP_VERSION body ' + a.hex()), outcome))
     return findings, stats
+
+
+# ================================================================================================
+# X11 setup block parser (x11.py SSHX11ClientForwarder), driven directly
+
+class _X11Listener:
+    """stands in for SSHX11ClientListener: the cookie check only"""
+
+    def __init__(self, remote, local):
+        self.remote, self.local = remote, local
+
+    def validate_auth(self, remote_auth):
+        if remote_auth != self.remote:
+            raise KeyError(remote_auth)
+        return self.local
+
+
+class _ChanTransport:
+    def __init__(self):
+        self.w, self.eof, self.closed = bytearray(), False, False
+
+    def write(self, d):
+        self.w += d
+
+    def write_eof(self):
+        self.eof = True
+
+    def close(self):
+        self.closed = True
+
+    def abort(self):
+        self.closed = True
+
+    def get_extra_info(self, n, d=None):
+        return d
+
+    def pause_reading(self):
+        pass
+
+    def resume_reading(self):
+        pass
+
+    def can_write_eof(self):
+        return True
+
+
+def x11_block(endian=b'B', name=b'MIT-MAGIC-COOKIE-1', data=b'', name_len=None, data_len=None, major=11):
+    """an X11 connection setup block; the two length fields can lie"""
+    def u16(v):
+        return v.to_bytes(2, 'big' if endian == b'B' else 'little')
+
+    def pad(b):
+        return b + b'\0' * (-len(b) % 4)
+    return (endian + b'\0' + u16(major) + u16(0) + u16(len(name) if name_len is None else name_len) +
+            u16(len(data) if data_len is None else data_len) + b'\0\0' + pad(name) + pad(data))
+
+
+X11_LENGTHS = [0, 1, 2, 3, 4, 16, 18, 255, 65535]
+
+
+def gen_x11(rng, remote):
+    endian = rng.choice([b'B', b'B', b'l', b'l', b'\0', b'X', b'b'])
+    cookie = rng.choice([remote, remote, remote[:-1] + bytes([remote[-1] ^ 1]), b'', remote[:8], remote + b'x', b'\0' * 16])
+    name = rng.choice([b'MIT-MAGIC-COOKIE-1', b'', b'X', b'XDM-AUTHORIZATION-1', b'n' * 255])
+    kw = {}
+    r = rng.random()
+    if r < 0.3:
+        kw['name_len'] = rng.choice(X11_LENGTHS)
+    elif r < 0.6:
+        kw['data_len'] = rng.choice(X11_LENGTHS)
+    elif r < 0.7:
+        kw['name_len'], kw['data_len'] = rng.choice(X11_LENGTHS), rng.choice(X11_LENGTHS)
+    s = x11_block(endian, name, cookie, **kw)
+    r = rng.random()
+    if r < 0.2:
+        s = s[:rng.randint(0, len(s))]
+    elif r < 0.5:
+        s += rng.choice([b'\x01', b'tail of the X11 conversation', b'\0' * 5])
+    k = rng.random()
+    if k < 0.4:
+        chunks = [s]
+    elif k < 0.55:
+        chunks = [s[i:i + 1] for i in range(len(s))]
+    else:
+        cuts = sorted(rng.sample(range(len(s) + 1), min(len(s) + 1, rng.randint(1, 3))))
+        chunks = [s[a:b] for a, b in zip([0] + cuts, cuts + [len(s)])]
+    chunks = [c for c in chunks if c] or [b'']
+    if rng.random() < 0.3:
+        chunks.append(rng.choice([b'later data', b'\0']))
+    return chunks
+
+
+def x11_fixed(remote):
+    out = []
+    for endian in (b'B', b'l', b'?'):
+        out.append([x11_block(endian, data=remote)])
+        out.append([x11_block(endian, data=remote[::-1])])
+        for nl in X11_LENGTHS:
+            out.append([x11_block(endian, data=remote, name_len=nl)])
+        for dl in X11_LENGTHS:
+            out.append([x11_block(endian, data=remote, data_len=dl)])
+            out.append([x11_block(endian, name=b'', data=b'', data_len=dl) + b'\0' * 8])
+        out.append([x11_block(endian, name=b'', data=b'')])                    # both lengths zero
+        out.append([x11_block(endian, name=b'', data=b''), b'more'])
+    return out
+
+
+def x11_observe(remote, local, chunks):
+    """-> (raised, bytes passed to the X server, bytes written back, eof written back)"""
+    from asyncssh.x11 import SSHX11ClientForwarder
+    from asyncssh.forward import SSHForwarder
+    xserver = SSHForwarder()
+    xt = _ChanTransport()
+    xserver.connection_made(xt)
+    f = SSHX11ClientForwarder(_X11Listener(remote, local), xserver)
+    ct = _ChanTransport()
+    f.connection_made(ct)
+    raised = None
+    for ch in chunks:
+        try:
+            f.data_received(ch)
+        except Exception as e:                          # noqa
+            raised = type(e).__name__
+            break
+    return raised, bytes(xt.w), bytes(ct.w), ct.eof
+
+
+def x11_run(rng, n):
+    remote, local = bytes(range(0x10, 0x20)), bytes(range(0xa0, 0xb0))
+    cases, bad, stats = [], [], {'accepted': 0, 'rejected': 0, 'waiting': 0, 'zero_length_cookie': 0}
+    inputs = x11_fixed(remote) + [gen_x11(rng, remote) for _ in range(n)]
+    for chunks in inputs:
+        PROGRESS['item'] = ['x11 setup', [c.hex() for c in chunks]]
+        raised, fwd, reply, eof = x11_observe(remote, local, chunks)
+        if raised:
+            bad.append(('SSHX11ClientForwarder.data_received', b'|'.join(chunks), raised))
+        stats['rejected' if reply else ('accepted' if fwd else 'waiting')] += 1
+        cases.append('((%s, %s, %s), (%s, %s, %s))' % (zl(remote), zl(local), clist(chunks, zl), zl(fwd), zl(reply), cbool(eof)))
+    stats['zero_length_cookie'] = sum(1 for ch in inputs if len(ch[0]) >= 12 and ch[0][8:10] == b'\0\0')
+    return cases, bad, stats
